@@ -555,6 +555,43 @@ void ml_case(vt::Rng& rng, int64_t kase)
     vt::put(vt::J("Generic").s("fn", "gboost-bias:" + lossid).i("dims", bias.size()).b("convex", bias.convex()).b("smooth", bias.smooth()).b("gradOK", ob.gradOK)
                 .b("differentiable", ob.differentiable).b("convexOK", ob.convexOK).b("strongOK", ob.strongOK).b("valueOnlySame", true).i("graderr_e12", static_cast<int64_t>(std::min(ob.graderr * 1e12, 2e9)))
                 .i("case", kase));
+
+    // the two other gradient boosting objectives: the scale objective over random clusters (some samples unassigned) and
+    // strong / weak learner outputs, and the per-sample gradient objective
+    const auto groups = rng.range(1, 4);
+    cluster_t  cluster(n, groups);
+    tensor4d_t soutputs(cat_dims(n, dataset.target_dims())), woutputs(cat_dims(n, dataset.target_dims()));
+    for (tensor_size_t i = 0; i < soutputs.size(); ++i)
+    {
+        soutputs(i) = rng.uniform(-1.0, 1.0);
+        woutputs(i) = rng.uniform(-1.0, 1.0);
+    }
+    for (tensor_size_t i = 0; i < n; ++i)
+    {
+        cluster.assign(i, rng.coin(1, 5) ? -1 : rng.range(0, groups - 1));
+    }
+    // (the per-thread partial sums of these objectives are combined in scheduling order: value-only and value+gradient calls agree
+    // up to that re-association, not bit for bit)
+    const auto same_value = [&](const function_t& f)
+    {
+        vector_t x(f.size()), g(f.size());
+        for (tensor_size_t i = 0; i < x.size(); ++i)
+        {
+            x(i) = rng.uniform(-1.0, 1.0);
+        }
+        const auto fg = f.vgrad(x, g), fv = f.vgrad(x);
+        return (!std::isfinite(fg) && !std::isfinite(fv)) || std::fabs(fg - fv) <= 1e-12 * (1.0 + std::fabs(fg));
+    };
+    const auto scale = gboost::scale_function_t{tit, *loss, cluster, soutputs, woutputs};
+    const auto os    = generic_oracle(rng, scale, scale.smooth());
+    vt::put(vt::J("Generic").s("fn", "gboost-scale:" + lossid).i("dims", scale.size()).b("convex", scale.convex()).b("smooth", scale.smooth()).b("gradOK", os.gradOK)
+                .b("differentiable", os.differentiable).b("convexOK", os.convexOK).b("strongOK", os.strongOK).b("valueOnlySame", same_value(scale)).i("graderr_e12", static_cast<int64_t>(std::min(os.graderr * 1e12, 2e9)))
+                .i("case", kase));
+    const auto grads = gboost::grads_function_t{tit, *loss};
+    const auto og    = generic_oracle(rng, grads, grads.smooth());
+    vt::put(vt::J("Generic").s("fn", "gboost-grads:" + lossid).i("dims", grads.size()).b("convex", grads.convex()).b("smooth", grads.smooth()).b("gradOK", og.gradOK)
+                .b("differentiable", og.differentiable).b("convexOK", og.convexOK).b("strongOK", og.strongOK).b("valueOnlySame", same_value(grads)).i("graderr_e12", static_cast<int64_t>(std::min(og.graderr * 1e12, 2e9)))
+                .i("case", kase));
 }
 } // namespace
 
